@@ -28,6 +28,15 @@ CHECKS = {
     note='Bounded in list length only (2 quick / 4 thorough; nested lists 1). Assumes declaration order of pt fields = source order. '
          'Counterexamples and one instance per variant are printed, parsed by the real parser and run through the real walker.',
     technique='symbolic execution of MIR, inductive step per variant + Z3, native replay', design='6/C01'),
+ 'C05': dict(
+    text='Each of the 11 expression-level detectors is executed from MIR (with the real walker) on files built from a catalogue of 53 syntactic '
+         'positions x all canonical / non-matching / near-miss forms of DESIGN.md section 8 (one and two occurrences per file); Loc offsets '
+         'are free symbols, the shift_math literal is a symbolic 130-bit natural decided by Z3 (power of two for EVERY value, not samples). An '
+         'independent three-valued oracle says must-report / must-not-report per node; every path is additionally printed, re-parsed by the '
+         'real parser and run through the compiled detector (prediction must match).',
+    note='Quick: 17 positions (14 fixed + 3 rotating by seed), thorough: all 53. Assumes distinct nodes have distinct extents. '
+         'Structure is enumerated by path forking; values are decided by the solver.',
+    technique='symbolic execution of MIR over tree families + Z3, native replay of every path', design='6/C05, 8'),
 }
 NOT_YET = "check not built yet (framework under construction); see DESIGN.md section 6"
 NA = {
